@@ -23,7 +23,7 @@ def render(entries):
 class C07(Check):
     prop = 'C07'
     rule = ('well-formed stream: tables of 0-10 entries at random slot positions, names of every length 1-8 (real ExeFS '
-            'names and random [a-z.A-Z0-9_], plus stored decoys N.bin next to N), sizes {0,1,0x1FF,0x200,random}, 0x200-aligned offsets, random hashes, '
+            'names and random [a-z.A-Z0-9_], plus stored decoys N.bin next to N; per reader a history of 3-8 opens over a small pool of spellings x normalize on/off), sizes {0,1,0x1FF,0x200,random}, 0x200-aligned offsets, random hashes, '
             'optionally at a non-zero start offset inside a larger file; header built by the Lean spec `Exefs.build`; '
             'every stored name is opened as N, /N, N.bin, /N.bin and read at random (offset, length); '
             'malformed stream: unaligned offsets, bytes >= 0x80 in names (single bytes and well-formed UTF-8 sequences), duplicate names, short headers, random '
@@ -171,6 +171,45 @@ class C07(Check):
                         mo = drv.ask(('fileops', ('sub', case['start'] + 0x200 + int(o), int(s), ('bio', file_bytes)),
                                       (('s', off, 0), ('r', ln))))
                         m = 'ok ' + mo.split(' ')[1][2:].replace('-', '')
+                    models.append(m)
+            # a history of opens on the SAME reader: spellings drawn from a small pool (so that one path string comes back), each with
+            # normalize on or off (off = the verbatim stored name, documented for names that really end in '.bin')
+            by_name = {}
+            for t in stored:
+                by_name.setdefault(t[0].decode('ascii'), t)       # dict semantics of duplicates never arise: names are distinct
+            pool = []
+            for t in stored[:3]:
+                nm = t[0].decode('ascii')
+                base = nm[:-4] if nm.lower().endswith('.bin') else nm
+                pool += [base, '/' + base, base + '.bin', '/' + base + '.bin']
+            if pool:
+                hist = [(rng.pick(pool), rng.chance(0.5)) for _ in range(rng.randint(3, 8))]
+                info['open history with normalize=False'] = 1
+                for spelling, nrm in hist:
+                    want_name = spelling
+                    if nrm:
+                        want_name = want_name[1:] if want_name.startswith('/') else want_name
+                        want_name = want_name[:-4] if want_name.lower().endswith('.bin') else want_name
+                    t = by_name.get(want_name)
+                    try:
+                        got = rd.open(spelling, normalize=nrm).read()
+                        tok = 'ok ' + got.hex()
+                        if t is None:
+                            mon.append(f'open({spelling!r}, normalize={nrm}) succeeded after {hist}: no entry is named {want_name!r}')
+                            key = 'exefs.missing'
+                        elif got != file_bytes[case['start'] + 0x200 + t[1]:case['start'] + 0x200 + t[1] + t[2]]:
+                            mon.append(f'open({spelling!r}, normalize={nrm}) returned the bytes of another entry (history {hist})')
+                            key = 'exefs.read'
+                    except Exception as e:  # noqa
+                        tok = 'e:' + exc_name(e)
+                        if t is not None:
+                            mon.append(f'open({spelling!r}, normalize={nrm}) raised {tok} for the stored entry {want_name!r} (history {hist})')
+                            key = 'exefs.alias'
+                    outs.append(tok)
+                    m = drv.ask(('exefs-lookup', header, spelling.encode('ascii'), int(nrm)))
+                    if m.startswith('ok '):
+                        _, o, sz, _ = m[3:].split(':')
+                        m = 'ok ' + file_bytes[case['start'] + 0x200 + int(o):case['start'] + 0x200 + int(o) + int(sz)].hex()
                     models.append(m)
             # names that are not stored
             for _ in range(3):
